@@ -183,7 +183,7 @@ fn oracle_level(s: &[u8]) -> Option<u8> {
     }
 }
 
-const MAXLEN: usize = 6;
+const MAXLEN: usize = 7;
 
 fn any_ascii(len_max: usize) -> ([u8; MAXLEN], usize) {
     let buf: [u8; MAXLEN] = kani::any();
@@ -272,6 +272,22 @@ fn c19_parse_level_ascii4() {
 #[kani::stub(core::fmt::write, fmt_write_stub)]
 fn c19_parse_level_ascii6() {
     parse_level_case(6);
+}
+
+/// every ASCII string of 1..=7 bytes (thorough tier): the first length at which an over-long numeral ("0000003")
+/// fits
+#[kani::proof]
+#[kani::unwind(9)]
+#[kani::stub(core::fmt::write, fmt_write_stub)]
+fn c19_parse_filter_ascii7() {
+    parse_filter_case(7, 1);
+}
+
+#[kani::proof]
+#[kani::unwind(9)]
+#[kani::stub(core::fmt::write, fmt_write_stub)]
+fn c19_parse_level_ascii7() {
+    parse_level_case(7);
 }
 
 /// strings that contain one 2-byte UTF-8 scalar surrounded by ASCII (<= 5 bytes):
